@@ -184,7 +184,11 @@ def denormalize_pixels_range(pixels, out_dtype):
             "is unknown".format(out_dtype)
         )
 
-    return (pixels * max_range).astype(out_dtype)
+    # Round to the nearest level: a truncating cast loses one level whenever
+    # the product lands just below an integer (e.g. 33 * (1.0 / 255.0) * 255.0
+    # is 32.99999999999999), so uint8/uint16 data would not survive
+    # normalize_pixels_range -> denormalize_pixels_range.
+    return np.round(pixels * max_range).astype(out_dtype)
 
 
 def channels_to_back(pixels):
